@@ -779,3 +779,123 @@ func notForwarders(c *core.Ctx, sites []ssa.CallInstruction, iface *types.Interf
 	}
 	return out
 }
+
+// ownerOf: the type a function belongs to - its receiver's, or, for a plain function of the same package whose first
+// parameter is a pointer to a struct type of that package, that type (a method written as a function).
+func ownerOf(f *ssa.Function) *types.Named {
+	if f == nil {
+		return nil
+	}
+	if recv := f.Signature.Recv(); recv != nil {
+		return core.NamedOf(recv.Type())
+	}
+	if f.Signature.Params().Len() > 0 && f.Pkg != nil {
+		if n := core.NamedOf(f.Signature.Params().At(0).Type()); n != nil && n.Obj().Pkg() == f.Pkg.Pkg {
+			if _, isPtr := f.Signature.Params().At(0).Type().Underlying().(*types.Pointer); isPtr && core.StructOf(n) != nil {
+				return n
+			}
+		}
+	}
+	return nil
+}
+
+// dependentsRecorder: the function - a method of the definition or a function taking it, whatever it is called - that
+// appends one of its parameters to the dependents of another one (nil if there is none).
+func dependentsRecorder(c *core.Ctx) *ssa.Function {
+	if v, ok := c.Memo.Load("dependents-recorder"); ok {
+		fn, _ := v.(*ssa.Function)
+		return fn
+	}
+	meta := c.Named("component_definition", "Meta")
+	var found *ssa.Function
+	if meta != nil {
+		stores, _ := c.FieldAccesses(meta, "Dependent")
+		for _, st := range stores {
+			if _, isParam := core.Norm(st.Addr.X).(*ssa.Parameter); isParam && ownerOf(st.Fn) == meta {
+				if call, ok := st.Store.Val.(*ssa.Call); ok {
+					if bi, isB := call.Common().Value.(*ssa.Builtin); isB && bi.Name() == "append" {
+						found = st.Fn
+					}
+				}
+			}
+		}
+	}
+	c.Memo.Store("dependents-recorder", found)
+	return found
+}
+
+// fieldScanner: the routine of the definition - whatever it is called, method or function - that appends to the
+// definition's field list (with the literals it is made of); nil if there is not exactly one.
+func fieldScanner(c *core.Ctx) *ssa.Function {
+	if v, ok := c.Memo.Load("field-scanner"); ok {
+		fn, _ := v.(*ssa.Function)
+		return fn
+	}
+	meta := c.Named("component_definition", "Meta")
+	var found *ssa.Function
+	n := 0
+	if meta != nil {
+		stores, _ := c.FieldAccesses(meta, "Fields")
+		seen := map[*ssa.Function]bool{}
+		for _, st := range stores {
+			call, ok := st.Store.Val.(*ssa.Call)
+			if !ok {
+				continue
+			}
+			if bi, isB := call.Common().Value.(*ssa.Builtin); !isB || bi.Name() != "append" {
+				continue
+			}
+			top := core.TopLevel(st.Fn)
+			if !seen[top] {
+				seen[top] = true
+				found = top
+				n++
+			}
+		}
+	}
+	if n != 1 {
+		found = nil
+	}
+	c.Memo.Store("field-scanner", found)
+	return found
+}
+
+// forwardsToHeld: the method does nothing but hand its call on - same method name, its own parameters in order - to an
+// object it holds in a field (an explicit version of what embedding that field would promote).
+func forwardsToHeld(fn *ssa.Function) bool {
+	if fn == nil || fn.Signature.Recv() == nil || len(fn.Blocks) != 1 || len(fn.Params) == 0 {
+		return false
+	}
+	var fwd *ssa.Call
+	for _, ci := range core.Calls(fn) {
+		if core.IsLogCall(ci.Common()) {
+			continue
+		}
+		call, ok := ci.(*ssa.Call)
+		if !ok || fwd != nil {
+			return false
+		}
+		fwd = call
+	}
+	if fwd == nil || !fwd.Common().IsInvoke() || fwd.Common().Method.Name() != fn.Name() {
+		return false
+	}
+	// the receiver of the forwarded call is a field of the method's own receiver
+	ld, ok := fwd.Common().Value.(*ssa.UnOp)
+	if !ok || ld.Op != token.MUL {
+		return false
+	}
+	fa, ok := ld.X.(*ssa.FieldAddr)
+	if !ok || core.Norm(fa.X) != ssa.Value(fn.Params[0]) {
+		return false
+	}
+	if len(fwd.Common().Args) != len(fn.Params)-1 {
+		return false
+	}
+	for i, a := range fwd.Common().Args {
+		if core.Norm(a) != ssa.Value(fn.Params[i+1]) {
+			return false
+		}
+	}
+	return true
+}
